@@ -162,7 +162,7 @@ impl Line {
     }
 }
 
-/// Dispatch on the hash name to one of the six library hashers.
+/// Dispatch on the hash name to one of the six library hashers (or the harness's toy hasher).
 #[macro_export]
 macro_rules! with_hash {
     ($name:expr, $H:ident => $body:expr) => {
@@ -191,6 +191,18 @@ macro_rules! with_hash {
                 type $H = hbs_lms::Shake256_128;
                 $body
             }
+            "toy_256" => {
+                type $H = $crate::toy::Toy_256;
+                $body
+            }
+            "toy_192" => {
+                type $H = $crate::toy::Toy_192;
+                $body
+            }
+            "toy_128" => {
+                type $H = $crate::toy::Toy_128;
+                $body
+            }
             other => panic!("unknown hash {}", other),
         }
     };
@@ -208,5 +220,10 @@ pub const ALL_HASHES: [(&str, usize); 6] = [
 ];
 
 pub fn hash_n(name: &str) -> usize {
-    ALL_HASHES.iter().find(|(h, _)| *h == name).unwrap().1
+    match name {
+        "toy_256" => 32,
+        "toy_192" => 24,
+        "toy_128" => 16,
+        _ => ALL_HASHES.iter().find(|(h, _)| *h == name).unwrap().1,
+    }
 }
